@@ -512,6 +512,38 @@ def c18(tier, seed):
                 printed = ("Diff in f.lua" in o) if fmt == "standard" else ("\nf.lua\n" in "\n" + o)
                 if printed != (text != expected):
                     V.append(v("C18", fmt + ":diff-iff-differs", dict(detail, differs=text != expected)))
+    # several files in one run, two of them byte-identical and unformatted: every differing file is named exactly once
+    # in each format, a JSON record reconstructs *its* file, the unified output has one diff per differing file
+    dup = "local M   = {}\nfunction M.add( a,b ) return a+b end\n\n\n\nreturn   M\n"
+    multi = {"vendor/a/util.lua": dup, "vendor/b/util.lua": dup, "src/other.lua": "local   x = 1\nreturn   x\n",
+             "src/clean.lua": "local x = 1\n", "src/dup2.lua": dup}
+    names = sorted(multi)
+    expected_of = {k_: _lib_format(t_, "syntax=All") for k_, t_ in multi.items()}
+    differing = {i for i, k_ in enumerate(names) if expected_of[k_] != multi[k_]}
+    for threads in (["--num-threads", "1"], []):
+        with Tree(multi) as t:
+            for fmt in ("json", "summary", "standard", "unified"):
+                rc, out, err = run(["--check", "--output-format", fmt] + threads + names, t.root)
+                n += 1
+                o = out.decode("utf-8", "replace")
+                detail = {"case": "multi-file", "files": names, "format": fmt, "argv_extra": threads}
+                if fmt == "unified":
+                    if o.count("--- old\n") != len(differing):
+                        V.append(v("C18", "unified:one-diff-per-differing-file", dict(detail, diffs=o.count("--- old\n"), differing=len(differing))))
+                    continue
+                got = _diff_ids(fmt, o, names)
+                if got != differing:
+                    V.append(v("C18", fmt + ":lists-exactly-the-differing-files", dict(detail, listed=sorted(names[i] for i in got), differing=sorted(names[i] for i in differing), output=o[:600])))
+                if fmt == "json":
+                    recs = [json.loads(l) for l in o.split("\n") if l.strip().startswith("{") and '"mismatches"' in l]
+                    per_file = {}
+                    for r_ in recs:
+                        per_file.setdefault(os.path.normpath(r_["file"]), []).append(r_)
+                    for k_, rs in per_file.items():
+                        if len(rs) != 1:
+                            V.append(v("C18", "json:file-reported-more-than-once", dict(detail, file=k_, records=len(rs))))
+                        elif k_ in multi and apply_json(multi[k_].splitlines(True), rs[0]["mismatches"]) != expected_of[k_]:
+                            V.append(v("C18", "json:does-not-reconstruct", dict(detail, file=k_)))
     S.append({"c18": {"pairs": len(cases), "cli_runs": n, "oracle_evaluations": n, "pairs_with_multi_line_pure_insert": multi_inserts, "unified_model_requests": uni_stats}})
     return Q, V, S
 
@@ -951,6 +983,39 @@ def c20(tier, seed):
                 rc, o, err = fmt_with({"stylua.toml": "%s = %s\n" % (key, toml_v)}, [flag, flag_v])
                 if o != lib or rc != 0:
                     V.append(v("C20", "flag-does-not-override-config:value-pair:%s" % key, {"option": key, "config_file_value": toml_v, "flag_value": flag_v, "exit": rc, "carrier_output": o[:300], "library_output": lib[:300]}))
+    # every pair of distinct options x every pair of their values, through each carrier (both keys in stylua.toml, both
+    # flags, both .editorconfig keys, one in the file and one as flag): options must not interfere with one another
+    def _fields(frag):
+        k, val = frag.split("=", 1)
+        return k, val
+    opts = _c20_options()
+    pair_runs = 0
+    for i in range(len(opts)):
+        for j in range(i + 1, len(opts)):
+            (ka, fa, ea, va), (kb, fb, eb, vb) = opts[i], opts[j]
+            for ta, fva, eca, fraga in va:
+                for tb, fvb, ecb, fragb in vb:
+                    f1, v1 = _fields(fraga)
+                    f2, v2 = _fields(fragb)
+                    if f1 == f2 == "indent":
+                        # indent_type x indent_width: "Tabs/4"-style fragments carry both halves
+                        cfg = "indent=%s/%s" % (v1.split("/")[0], v2.split("/")[1])
+                    else:
+                        cfg = fraga + " " + fragb
+                    if "syntax=" not in cfg:
+                        cfg = "syntax=All " + cfg
+                    lib = _lib_format(C20_PROBE, cfg)
+                    outs = {}
+                    rc, outs["toml"], err = fmt_with({"stylua.toml": "%s = %s\n%s = %s\n" % (ka, ta, kb, tb)}, [])
+                    rc, outs["flags"], err = fmt_with({}, [fa, fva, fb, fvb])
+                    rc, outs["toml+flag"], err = fmt_with({"stylua.toml": "%s = %s\n" % (ka, ta)}, [fb, fvb])
+                    if ea and eb and eca and ecb:
+                        rc, outs["editorconfig"], err = fmt_with({".editorconfig": "root = true\n[*.lua]\n%s = %s\n%s = %s\n" % (ea, eca, eb, ecb)}, [])
+                        rc, outs["editorconfig:reversed"], err = fmt_with({".editorconfig": "root = true\n[*.lua]\n%s = %s\n%s = %s\n" % (eb, ecb, ea, eca)}, [])
+                    pair_runs += len(outs)
+                    for carrier, o in outs.items():
+                        if o != lib:
+                            V.append(v("C20", "carrier-differs-from-library:pair:%s+%s:%s" % (ka, kb, carrier.split(":")[0]), {"options": [ka, kb], "values": [fva, fvb], "carrier": carrier, "carrier_output": o[:400], "library_output": lib[:400]}))
     # sort_requires
     lib = _lib_format(C20_PROBE, "syntax=All sort=true")
     for carrier, files, args in (("toml", {"stylua.toml": "[sort_requires]\nenabled = true\n"}, []), ("flag", {}, ["--sort-requires"]), ("editorconfig", {".editorconfig": "root = true\n[*.lua]\nsort_requires = true\n"}, [])):
@@ -988,7 +1053,7 @@ def c20(tier, seed):
                 if rc != 2 or after["p.lua"][0] != before["p.lua"][0]:
                     V.append(v("C20", "malformed-config-accepted:config-path:" + name, {"config": body, "exit": rc}))
     Q.append(q("optiontables", "ok"))
-    S.append({"c20": {"runs": runs, "options": len(_c20_options()) + 1, "malformed_kinds": len(bad), "oracle_evaluations": runs}})
+    S.append({"c20": {"runs": runs, "option_pair_runs": pair_runs, "options": len(_c20_options()) + 1, "malformed_kinds": len(bad), "oracle_evaluations": runs}})
     return Q, V, S
 
 
